@@ -124,11 +124,18 @@ fn p_c13() -> Profile {
     let mut p = Profile::base();
     p.weak_deletes = true;
     p.blob = Tri::Maybe;
-    p.w[W_SNAP_OPEN] = 5;
-    p.w[W_SNAP_CLOSE] = 2;
-    p.w[W_SCAN] = 3;
-    p.w[W_MAJOR] = 6;
-    p.w[W_PULLDOWN] = 4;
+    p.max_ops = 70;
+    p.w[W_WRITE] = 34;
+    p.w[W_BATCH] = 2;
+    p.w[W_SNAP_OPEN] = 2;
+    p.w[W_SNAP_CLOSE] = 3;
+    p.w[W_SCAN] = 2;
+    p.w[W_FLUSH_ACTIVE] = 14;
+    p.w[W_LEVELED] = 10;
+    p.w[W_MAJOR] = 4;
+    p.w[W_PULLDOWN] = 5;
+    p.w[W_MOVEDOWN] = 2;
+    p.w[W_REOPEN] = 1;
     p
 }
 
